@@ -218,5 +218,23 @@ def run(tier, seed):
 
 
 def replay(path, seed):
-    print("replay: witness holds the grammar text; run the CLI on it")
+    import json
+    w = json.load(open(path))["witness"]
+    bin_ = core.build_lalrpop()
+    d = tempfile.mkdtemp()
+    try:
+        p = os.path.join(d, "g.lalrpop")
+        open(p, "w").write(w["grammar"])
+        res = subject.run_lalrpop(bin_, p, out_dir=d)
+    finally:
+        shutil.rmtree(d, ignore_errors=True)
+    st = subject.classify_cli(res)
+    msg = res["stderr"] + res["stdout"]
+    amb = "ambiguity detected" in msg
+    print("lalrpop now: %s%s | witness kind: %s" % (st, " (ambiguity)" if amb else "", w["kind"]))
+    still = (w["kind"] == "missed_ambiguity" and st == "ok") or (w["kind"] == "false_ambiguity" and amb) or \
+            (w["kind"] == "unsupported_feature_accepted" and st == "ok") or (w["kind"] == "panic" and st in ("panic", "signal"))
+    if still:
+        print("VIOLATION property=C11 replay=%s" % path)
+        return 1
     return 0
